@@ -69,16 +69,18 @@ def _universes(env, conf):
     """the generated universes, printed by TLC from spec/Universe.tla, for the runner"""
     from common import tlc, parse_tla
     r = tlc('PrintUniverses', 'PrintUniverses.cfg', env={'SPIL_CONF_JSON': conf}, workers=1, timeout=300)
-    out, junk = {}, {}
+    out, junk, data = {}, {}, {}
     for v in r.printed():
         if isinstance(v, list) and v and v[0] == 'UNIVERSE':
             out[v[1]] = v[2]
         elif isinstance(v, list) and v and v[0] == 'JUNK':
             junk.setdefault(v[1], {})[v[2]] = v[3]
+        elif isinstance(v, list) and v and v[0] == 'DATA':
+            data[v[1]] = v[2]
     if not out:
         raise Machinery('no universes printed:\n' + r.out[-2000:])
     p = os.path.join(env.dir, 'universes.json')
-    json.dump(dict(universes=out, junk=junk), open(p, 'w'))
+    json.dump(dict(universes=out, junk=junk, data=data), open(p, 'w'))
     return p
 
 
@@ -251,4 +253,51 @@ def check_C11(tier):
     rep.guard(any(t.startswith('finders:mixed') for t in rep.cover) or not calls, 'no constant-backed level exercised')
     rep.assumptions = ['universes and junk are those of spec/Universe.tla and spec/Store.tla (JunkOf)',
                        'agreement is claimed for type-complete searches over path-backed, non-constant types; constant-backed levels are validated against the constants semantics of the spec']
+    return rep.finish()
+
+
+def store_family(rep, env, conf, family, tier, what, nenv=4, per=20):
+    env.run('probe_routing.py', [conf])
+    calls = K.spec_to_code(rep, env, conf, 'MC_Store', 'MC_Store_%s_%s.cfg' % (family, tier), what, transform=_no_seed)
+    uni = _universes(env, conf)
+    calls.sort(key=lambda c: c['univ'])
+    K.code_to_spec(rep, env, conf, calls, what + ' on materialised trees', tag=family,
+                   extra={'SPIL_UNIVERSES': uni, 'SPIL_CONF_JSON': conf}, envs=store_envs(nenv, env), per=per, chunk=2000)
+    return calls
+
+
+@reg
+def check_C16(tier):
+    rep = Report('C16', tier)
+    env = Env()
+    conf = extract_conf(env)
+    calls = store_family(rep, env, conf, 'getter', tier, 'C16 family: searches x attribute subsets x sid encoders')
+    rep.exhaustive = True
+    for t in ('many', 'one', 'nothing'):
+        rep.guard(any(k.endswith(':' + t) for k in rep.cover) or not calls, 'no getter call with %s results' % t)
+    rep.assumptions = ['attribute data seeded by the harness from SideDataOf of spec/Store.tla (sidecar JSON written directly)',
+                       'order is compared against FindInPaths.find run in the same process on the same tree']
+    return rep.finish()
+
+
+@reg
+def check_C12(tier):
+    rep = Report('C12', tier)
+    env = Env()
+    conf = extract_conf(env)
+    calls = store_family(rep, env, conf, 'sidreads', tier, 'C12 family: exists / children / siblings of every concrete Sid of the universe, existing or not')
+    # finder-level part: exists / find_one / as_sid agree with find, for every Finder (clauses c12_* of the finders op)
+    calls2 = K.spec_to_code(rep, env, conf, 'MC_Search', 'MC_Search_finders_%s.cfg' % tier,
+                            'C12 finder part: searches x store universes')
+    uni = _universes(env, conf)
+    calls2.sort(key=lambda c: c['univ'])
+    K.code_to_spec(rep, env, conf, calls2, 'exists / find_one / as_sid=False against find, on four Finders',
+                   tag='finders12', extra={'SPIL_UNIVERSES': uni, 'SPIL_CONF_JSON': conf}, envs=store_envs(8, env), per=40, chunk=2000)
+    rep.exhaustive = True
+    rep.guard(any(t.startswith('sidreads:exists') for t in rep.cover) and any(t.startswith('sidreads:missing') for t in rep.cover) or not calls,
+              'existing and missing Sids not both exercised')
+    rep.assumptions = ['theorems checked by TLC on the spec: ChildrenAreChildren, ExistingChildrenFound, LeafHasNoChildren, SiblingsShareParent, SelfAmongSiblings, ParentClosed',
+                       'reads after creates (histories) are part of the C15 behaviours']
+    # failures of the finder agreement itself belong to C11; C12 owns the c12_*, sidreads clauses
+    rep.items = [it for it in rep.items if it['kind'] != 'finders' or any(c.startswith('c12_') or c in ('noraise', 'harness') for c in it['clauses'])]
     return rep.finish()
